@@ -100,6 +100,12 @@ CHECKS["C15"] = dict(
     text="Every sequence (up to the completed depth) of: child c1/c2 synchronising with the TA, the proxy opening a signer request, the signer processing the latest or the previous pooled request (genuine, clear text altered, nonce altered, signed part swapped with the other pooled request or with a message signed by the signer's own key), the proxy being handed the latest or previous pooled response (genuine, nonce rewritten to the open one, child responses dropped, revision number lowered, signed part swapped with the other pooled response or with a message signed by the proxy's key), a key roll of c1: a request is opened only when none is open; the signer processes only unaltered requests signed by the proxy; the proxy accepts only the unaltered response carrying the open nonce; refused messages leave proxy/signer unchanged; no key has an open request and an open response at once and a fetched response leaves the proxy; TA manifest numbers in proxy, signer and repository never decrease and a changed manifest has a higher number; the tree stays relying-party valid.",
     note=E1_NOTE + " The scheduler is not run in this model (it would perform the whole exchange itself); hook H7 exposes the signer half of sync_ta_proxy_signer_if_possible. Signer re-initialisation is not reachable through the public API of an embedded TA and is not explored.")
 
+CHECKS["C08"] = dict(
+    engine="E3", category="model_checking", design="4/C08",
+    technique="exhaustive fault enumeration: for every scenario (state, operation) the sequence of key-value and file-system mutations performed by the operation and by the background tasks it triggers is recorded on the real code (fault points, hook H3); then every prefix is cut, once as a process crash before the n-th mutation and once as that mutation failing with an I/O error, and the survivor (a fresh instance on the surviving data directory / the still-running instance) is checked and compared with a fault-free twin run",
+    text="Scenarios: ROA added (warm caches; cold caches right after a restart; right after another command without any read in between), ROA removed, ASPA set, router key added, child entitlement shrunk, entitlement grown on cold caches, key roll initiated, key roll activated, key roll initiated under a rolling parent, re-publication a day later, identity key renewed (quick: the first six). For every mutation index and both cut kinds: every entity loads; the repository files are consistent; an acknowledged command is not lost; the running instance holds in memory exactly what a fresh instance replays from storage; after background tasks, re-submission of the interrupted request and settling the tree is relying-party valid and the observable state equals that of the fault-free run.",
+    note="Torn writes inside one mutation are not modelled (values are written to a temporary file and renamed). Equality with the twin is on an observable projection (configuration, entitlements, key-state kinds, relying-party payloads); fresh keys, serials and class names are not compared. When the daemon gives up on purpose (task queue cannot be written) the Fail-mode cut is continued as a restart. Two defects found here are recorded as known findings (listener/command store not atomic; RRDP update task not queued), one was repaired.")
+
 CHECKS["C10"] = dict(
     engine="E1", category="model_checking", design="4/C10",
     technique="explicit-state exploration (fork-checkpointed DFS) of publication-delta sequences from several publishers on the real RepositoryManager against a per-publisher reference map",
